@@ -322,9 +322,9 @@ theorem first_step_left (hk : SvdKernel k) (hd : 0 < qd.length) {A X : T3 𝕜} 
       injection h with h1 h
       injection h with h2 h3
       subst h3
-      have hne := shared_of_frob_pos H (by rw [frobM_flattenLeft]; exact hpos)
+      have hne := anyNZ_of_frob_pos (M := A.flattenLeft.tab) (by rw [frobM_flattenLeft]; exact hpos)
       have hdm := C12.split_dims k.dnorm k.dargsort tol hc.shape H.hq0 H.hq1 H.hm H.hn H.hsp hq
-      rw [hdm.2.2.2.2.1, (hdm.2.2.2.2.2.2 hne).1]
+      rw [hdm.2.2.2.2.1, hdm.2.2.2.2.2.2.1 hne]
 
 /-- the first step of a right sweep, in mirrored coordinates -/
 theorem first_step_right (hk : SvdKernel k) (hd : 0 < qd.length) {B X : T3 𝕜} {qL qR : List Int} {B' N' : T3 𝕜}
@@ -357,9 +357,9 @@ theorem first_step_right (hk : SvdKernel k) (hd : 0 < qd.length) {B X : T3 𝕜}
       injection h with h1 h
       injection h with h2 h3
       have hqb : qb.length = qb'.length := by rw [h3, neg_length]
-      have hne := shared_of_frob_pos H (by rw [frobM_rightMat]; exact hpos)
+      have hne := anyNZ_of_frob_pos (M := B.swap12.swap01.flattenRight.tab) (by rw [frobM_rightMat]; exact hpos)
       have hdm := C12.split_dims k.dnorm k.dargsort tol hc.shape H.hq0 H.hq1 H.hm H.hn H.hsp hq
-      rw [hqb, hdm.2.2.2.2.1, (hdm.2.2.2.2.2.2 hne).1]
+      rw [hqb, hdm.2.2.2.2.1, hdm.2.2.2.2.2.2.1 hne]
 
 /-! ## assembly -/
 
